@@ -151,9 +151,28 @@ def audit(modules: list[str], prefix: str):
     return axioms, problems
 
 
-def forbidden_tokens() -> list[str]:
+def module_closure(modules: list[str]) -> list[Path]:
+    """Source files of the given Lean modules and everything of this project they import."""
+    seen, stack, files = set(), list(modules), []
+    while stack:
+        m = stack.pop()
+        if m in seen:
+            continue
+        seen.add(m)
+        path = LEAN / (m.replace(".", "/") + ".lean")
+        if not path.exists():
+            continue
+        files.append(path)
+        for imp in re.findall(r"^import\s+([\w\.]+)", path.read_text(), flags=re.M):
+            if imp.startswith(("DxModel", "Driver")):
+                stack.append(imp)
+    return files
+
+
+def forbidden_tokens(modules: list[str]) -> list[str]:
+    """sorry/axiom/native_decide/... in the property's modules, their imports, and the driver."""
     hits = []
-    for p in list((LEAN / "DxModel").rglob("*.lean")) + list((LEAN / "Driver").rglob("*.lean")):
+    for p in module_closure(list(modules) + ["Driver.Main"]):
         src = _strip_comments(p.read_text())
         for m in FORBIDDEN.finditer(src):
             hits.append(f"{p.relative_to(LEAN)}: {m.group(0).strip()}")
@@ -319,7 +338,7 @@ def run_property(pid: str, tier: str, seed: int) -> int:
     if b.ok:
         axioms, problems = audit(mod.LEAN_MODULES, pid + "_")
         theorems = sorted(axioms)
-        tok = forbidden_tokens()
+        tok = forbidden_tokens(mod.LEAN_MODULES)
         if tok:
             problems.append("forbidden tokens: " + "; ".join(tok[:5]))
         if problems:
